@@ -241,4 +241,5 @@ func runC03(c *h.Ctx) {
 		}
 		cs.Distinct(fmt.Sprintf("d-%d", cs.I))
 	})
+	runJSConvT2J(c)
 }
